@@ -41,7 +41,7 @@ STEPV = {None: ["default"], "ConjugateGradient": ["default", "P"], "GradientMeth
 def bounds(tier):
     return {"solver": [str(s) for s in SOLVERS], "step variants": {str(k): v for k, v in STEPV.items()}, "lamda": [0, 0.5],
             "z": ["None", "array"], "proxg": ["None", "L1Reg(0.3)", "L2Reg(0.5)", "BoxConstraint(-0.25,0.4)"],
-            "G": ["None", "dense 3xn", "FiniteDifference"], "x": ["None", "given"],
+            "G": ["None", "dense 3xn", "FiniteDifference"], "x": ["None", "zeros", "minimiser of the smooth part", "the minimiser", "generic"],
             "A": ["Identity", "dense real 3x2"] + (["Multiply(diag)", "dense complex 3x2"] if tier == "thorough" else [])}
 
 
@@ -59,6 +59,15 @@ def gen_cases(tier, seed):
                             for G in (None, "dense", "fd"):
                                 for xg in (False, True):
                                     cases.append(dict(kind="lls", A=A, solver=solver, step=sv, lamda=lam, z=z, proxg=pg, G=G, x=xg))
+    # warm starts: the initial x as the minimiser of the smooth part, as the minimiser itself, and a generic vector
+    for A in ("identity", "multiply", "real32"):
+        for solver in SOLVERS:
+            for lam in (0, 0.5):
+                for pg in (None, "l1", "l2sq", "box"):
+                    if solver == "ConjugateGradient" and pg:
+                        continue
+                    for xg in ("ls", "opt", "generic"):
+                        cases.append(dict(kind="lls", A=A, solver=solver, step=STEPV[solver][0], lamda=lam, z=False, proxg=pg, G=None, x=xg))
     # problems far from unit scale (A -> sa*A, y -> sy*y, l1 weight scaled so that the problem is equivalent): the
     # documented minimiser is scale-equivariant, a solver with an absolute threshold is not
     for A in ("real32", "identity"):
@@ -197,11 +206,32 @@ def run_case(case, seed):
             kw["sigma"] = 1.0 / Kn
     elif sv == "rho05":
         kw["rho"] = 0.5
+    y0, z0 = y.copy(), z.copy()
+    # reference
+    yv, zv = y0.ravel().astype(complex), (z0.ravel().astype(complex) if zz is not None else None)
+    if case.get("scale"):
+        # solve the equivalent unit-scale problem and map back (x = sy/sa * x_unit, objective scales with sy^2)
+        xr, w, Pr, D, gap = convex.solve(Am / sa, yv / sy, kind, (par / (sa * sy)) if kind == "l1" else par, None, lam, zv, gap_tol=1e-12)
+        xr, Pr, D, gap = xr * sy / sa, Pr * sy * sy, D * sy * sy, gap * sy * sy
+    else:
+        xr, w, Pr, D, gap = convex.solve(Am, yv, kind, par, Gm if kind else None, lam, zv, gap_tol=1e-12)
+    if not np.isfinite(D):
+        raise RuntimeError("reference dual bound not finite")
     x_in = None
     if case["x"]:
         x_in = np.zeros(shp, dtype=dt)
+        if case["x"] == "ls":
+            # warm start at the minimiser of the smooth part alone (its gradient vanishes there - exactly, for diagonal A
+            # with power-of-two entries and lamda = 0), which is NOT the minimiser once proxg is present
+            H = Am.conj().T @ Am + lam * np.eye(n)
+            rhs = Am.conj().T @ y0.ravel() + (lam * z0.ravel() if zz is not None else 0)
+            xls = (y0.ravel() / np.diag(Am)) if (lam == 0 and Am.shape[0] == n and np.array_equal(Am, np.diag(np.diag(Am)))) else np.linalg.solve(H, rhs)
+            x_in[...] = xls.reshape(shp).astype(dt)
+        elif case["x"] == "opt":
+            x_in[...] = (xr.real if dt == np.float64 else xr).reshape(shp).astype(dt)     # already optimal: must stay
+        elif case["x"] == "generic":
+            x_in[...] = (np.cos(np.arange(n) + 1.0) * 0.7).reshape(shp).astype(dt)
         kw["x"] = x_in
-    y0, z0 = y.copy(), z.copy()
     snapA = snapshot.walk(A)
     excluded = (case["solver"] == "ConjugateGradient" and kind) or (case["solver"] == "GradientMethod" and G is not None)
     np.random.seed((seed + 12345) % 2 ** 32)
@@ -215,16 +245,6 @@ def run_case(case, seed):
         return dict(states=1, transitions=1, nontrivial=False, outcome="raised:" + type(_root(e)).__name__, viol=viol)
     if excluded:
         V("documented-exclusion-not-raised", "this solver cannot handle the combination but no error was raised")
-    # reference
-    yv, zv = y0.ravel().astype(complex), (z0.ravel().astype(complex) if zz is not None else None)
-    if case.get("scale"):
-        # solve the equivalent unit-scale problem and map back (x = sy/sa * x_unit, objective scales with sy^2)
-        xr, w, Pr, D, gap = convex.solve(Am / sa, yv / sy, kind, (par / (sa * sy)) if kind == "l1" else par, None, lam, zv, gap_tol=1e-12)
-        xr, Pr, D, gap = xr * sy / sa, Pr * sy * sy, D * sy * sy, gap * sy * sy
-    else:
-        xr, w, Pr, D, gap = convex.solve(Am, yv, kind, par, Gm if kind else None, lam, zv, gap_tol=1e-12)
-    if not np.isfinite(D):
-        raise RuntimeError("reference dual bound not finite")
     xv = np.asarray(x).ravel().astype(complex)
     ok_shape = list(np.asarray(x).shape) == list(shp)
     if not ok_shape:
